@@ -162,6 +162,31 @@ def m_num_to_tokens(it, n, a):
     return unit()
 
 
+@model(r'^<&?impl ToTokens as ToTokens>::to_tokens$')
+def m_generic_to_tokens(it, n, a):
+    """unmonomorphised `impl ToTokens` argument: dispatch on the value actually passed"""
+    v = deref(a[0])
+    dst = deref(a[1])
+    if isinstance(v, Tok):
+        dst.toks.append(v)
+    elif isinstance(v, TokStream):
+        dst.toks.extend(v.toks)
+    elif is_sym(v) and z3.is_fp(v):
+        ty = 'f32' if v.sort().sbits() == 24 else 'f64'
+        return m_num_to_tokens(it, f'<{ty} as ToTokens>::to_tokens', a)
+    elif isinstance(v, bool) or (is_sym(v) and z3.is_bool(v)):
+        return m_bool_to_tokens(it, n, a)
+    elif isinstance(v, (str, SymStr)):
+        return m_str_to_tokens(it, n, a)
+    else:
+        prim = [t.strip() for t in (it.gstack[-1].split(',') if it.gstack else []) if t.strip() in ('f32', 'f64', 'i32', 'i64', 'u32', 'u64', 'u8', 'u16', 'usize')]
+        if len(prim) == 1 and isinstance(v, (int, float)) or is_sym(v):
+            if len(prim) == 1:
+                return m_num_to_tokens(it, f'<{prim[0]} as ToTokens>::to_tokens', a)
+        raise Unsupported(f'{n} on a value whose static type is not recoverable: {v!r}')
+    return unit()
+
+
 @model(r'Literal::usize_unsuffixed$')
 def m_lit_usize(it, n, a):
     return Tok('lit', ('usize_unsuffixed', a[0]))
@@ -2118,6 +2143,24 @@ def m_vec_clear(it, n, a):
     return unit()
 
 
+# ---- scoped threads, sequentialised: a spawned closure runs to completion at the spawn point (ONE schedule; interleavings are
+# outside what this engine decides) and join() hands back its result.  Enough to follow data flow through thread::scope.
+@model(r'^(std::thread::|thread::)?scope::<')
+def m_thread_scope(it, n, a):
+    it.env.setdefault('threads_sequentialised', []).append('scope')
+    return it.call_closure(a[0], [mkref(Opaque('thread::Scope'))])
+
+
+@model(r'^(std::thread::)?Scope::<.*>::spawn::<')
+def m_scope_spawn(it, n, a):
+    return Agg('ScopedJoinHandle', [it.call_closure(a[1], [])])
+
+
+@model(r'^(std::thread::)?ScopedJoinHandle::<.*>::join$')
+def m_scoped_join(it, n, a):
+    return ok(deref(a[0]).fields[0])
+
+
 @model(r'^Vec::<.*>::truncate$')
 def m_vec_truncate(it, n, a):
     del arg0(a).items[conc_int(it, a[1], 'truncate length'):]
@@ -2402,6 +2445,61 @@ def m_int_ops(it, n, a):
     if op == 'div_ceil':
         return z3.UDiv(xz + yz - 1, yz)
     raise Unsupported(n)
+
+
+@model(r'^(core::num::<impl )?(u8|u16|u32|u64|usize|i32|i64)>?::checked_(shl|shr|add|sub|mul)$')
+def m_int_checked(it, n, a):
+    ty = re.search(r'(u8|u16|u32|u64|usize|i32|i64)', n).group(1)
+    op = re.search(r'::checked_(\w+)$', n).group(1)
+    w = {'u8': 8, 'u16': 16, 'u32': 32, 'u64': 64, 'usize': 64, 'i32': 32, 'i64': 64}[ty]
+    if ty.startswith('i'):
+        raise Unsupported(n)
+    x, y = deref(a[0]), deref(a[1])
+    M = (1 << w) - 1
+    if not (is_sym(x) or is_sym(y)):
+        if op in ('shl', 'shr'):
+            return none() if y >= w else some((x << y) & M if op == 'shl' else x >> y)
+        r = {'add': x + y, 'sub': x - y, 'mul': x * y}[op]
+        return some(r) if 0 <= r <= M else none()
+    xz = x if is_sym(x) else z3.BitVecVal(x, w)
+    if op in ('shl', 'shr'):
+        yz = y if is_sym(y) else z3.BitVecVal(y, 32)
+        if it.truth(z3.UGE(yz, w)):
+            return none()
+        sh = z3.ZeroExt(w - 32, yz) if w > 32 else z3.Extract(w - 1, 0, yz)
+        return some(xz << sh if op == 'shl' else z3.LShR(xz, sh))
+    yz = y if is_sym(y) else z3.BitVecVal(y, w)
+    wide = {'add': z3.ZeroExt(w, xz) + z3.ZeroExt(w, yz), 'sub': z3.ZeroExt(w, xz) - z3.ZeroExt(w, yz), 'mul': z3.ZeroExt(w, xz) * z3.ZeroExt(w, yz)}[op]
+    if it.truth(z3.UGT(wide, z3.BitVecVal(M, 2 * w))):
+        return none()
+    return some(z3.Extract(w - 1, 0, wide))
+
+
+@model(r'^(std::)?(f32|f64)::(abs|is_nan|is_finite|is_infinite|is_sign_negative|is_sign_positive|to_bits)$|^core::f(32|64)::<impl f(32|64)>::(abs|is_nan|is_finite|is_infinite|is_sign_negative|is_sign_positive|to_bits)$')
+def m_float_ops(it, n, a):
+    import math
+    import struct as _st
+    op = re.search(r'::(\w+)$', n).group(1)
+    x = deref(a[0])
+    if is_sym(x) and z3.is_fp(x):
+        return {'abs': lambda: z3.fpAbs(x), 'is_nan': lambda: z3.fpIsNaN(x), 'is_infinite': lambda: z3.fpIsInf(x),
+                'is_finite': lambda: z3.And(z3.Not(z3.fpIsNaN(x)), z3.Not(z3.fpIsInf(x))),
+                'is_sign_negative': lambda: z3.fpIsNegative(x), 'is_sign_positive': lambda: z3.fpIsPositive(x),
+                'to_bits': lambda: z3.fpToIEEEBV(x)}[op]()
+    if isinstance(x, float):
+        wide = 'f64' in n
+        return {'abs': lambda: abs(x), 'is_nan': lambda: math.isnan(x), 'is_infinite': lambda: math.isinf(x), 'is_finite': lambda: math.isfinite(x),
+                'is_sign_negative': lambda: math.copysign(1.0, x) < 0, 'is_sign_positive': lambda: math.copysign(1.0, x) > 0,
+                'to_bits': lambda: _st.unpack('<Q' if wide else '<I', _st.pack('<d' if wide else '<f', x))[0]}[op]()
+    raise Unsupported(n)
+
+
+@model(r'^naga::Handle::<.*>::index$')
+def m_handle_index(it, n, a):
+    h = deref(a[0])
+    if is_sym(h):
+        return z3.ZeroExt(64 - h.size(), h) if h.size() < 64 else h
+    return h
 
 
 @model(r'^Option::<(std::result::)?Result<.*>>::transpose$')
